@@ -140,6 +140,7 @@ struct World {
   int val_copy_throw_at = 0;  // k-th Val copy throws (0 = never)
   int val_copies = 0;
   bool fault_injected = false;
+  bool alloc_window_open = false;
   bool alloc_fault = false;  // param alloc=1: operator new may fail on the connecting thread during the top-level connect
   AllocStats astats[4];
   // tracked values
@@ -200,11 +201,18 @@ bool val_copy_should_throw() {
 
 void keep_until_end_of_run(void* p, void (*del)(void*)) { g_world->kept.push_back(World::Kept{p, del}); }
 
+void noexcept_connect_enter() { usim_alloc_fault_window(0); }
+void noexcept_connect_leave() { if (kit::ex::tl_noexcept_connect_depth == 0 && g_world && g_world->alloc_window_open) usim_alloc_fault_window(1); }
+
 void maybe_throw_on_connect(int node) {
   usim::np_scope np;
   Node& n = g_world->nodes[node];
   int inst = n.connects++;
   if (n.throw_on_connect != inst) return;
+  if (kit::ex::tl_noexcept_connect_depth > 0) {
+    usim_report("c02.noexcept-connect", "connect() of node %d (%s) throws inside the connect() of let_value_with_stop_source, which is declared noexcept although its operation "
+                "constructor connects the successor: the exception cannot propagate out of connect() (std::terminate)", node, kKindName[n.kind]);
+  }
   // parent instance under which this connect happens
   TapRec* parent = nullptr;
   if (n.parent >= 0)
@@ -417,9 +425,9 @@ struct Discard {
 };
 
 template <class F>
-node_base* make_node(F f) {
+node_base* make_node(F f, bool noexcept_connect = false) {
   usim::np_scope np;
-  return new expr_node<F>(std::move(f));
+  return new expr_node<F>(std::move(f), noexcept_connect);
 }
 
 long combine(long k, const long* ids, int n) {
@@ -512,7 +520,8 @@ void build_node(World* w, int id) {
       break;
     case K_ANY_SENDER: n.impl = make_node([a] { return unifex::any_sender_of<Val>(any_snd(a)); }); break;
     case K_LVWSS:
-      n.impl = make_node([a] { return unifex::let_value_with_stop_source([a](unifex::inplace_stop_source&) noexcept { return any_snd(a); }); });
+      // (noexcept_connect: the library declares this connect() noexcept although it connects the successor inside, see DESIGN.md 0.3)
+      n.impl = make_node([a] { return unifex::let_value_with_stop_source([a](unifex::inplace_stop_source&) noexcept { return any_snd(a); }); }, true);
       break;
     default: break;
   }
@@ -1014,7 +1023,7 @@ void run_expr(World* w) {
     { usim::np_scope np; w->ext_stop_end = seq(); }
   }
   bool connected = true;
-  if (w->alloc_fault) usim_alloc_fault_window(1);
+  if (w->alloc_fault) { w->alloc_window_open = true; usim_alloc_fault_window(1); }
   try {
     box->construct_with([&] { return unifex::connect(any_snd{w->nodes[w->root].impl}, R{w}); });
   } catch (const std::bad_alloc&) {
@@ -1025,7 +1034,7 @@ void run_expr(World* w) {
   } catch (...) {
     connected = false;
   }
-  if (w->alloc_fault) usim_alloc_fault_window(0);
+  if (w->alloc_fault) { w->alloc_window_open = false; usim_alloc_fault_window(0); }
   if (connected) {
     { usim::np_scope np; w->root_start_seq = seq(); }
     unifex::start(**box);
@@ -1078,6 +1087,11 @@ void body_expr(void*) {
   if (draw(3) == 0) usim_fault_rate(USIM_F_CAS_WEAK, 100);
   if (draw(4) == 0) usim_fault_rate(USIM_F_COND_SPURIOUS, 100);
   if (usim_param_int("alloc", 0) && draw(2) == 0) { w->alloc_fault = true; usim_fault_rate(USIM_F_ALLOC, 60 + 60 * draw(4)); }
+  if (usim_param_int("alloc", 0) && draw(8) == 0) {
+    // a user connect() that throws directly below a let_value_with_stop_source (connected inside its noexcept connect())
+    for (int i = 0; i < w->nnodes; ++i)
+      if (w->nodes[i].kind == K_LVWSS && w->nodes[w->nodes[i].child[0]].throw_on_connect < 0) { w->nodes[w->nodes[i].child[0]].throw_on_connect = 0; break; }
+  }
   {
     usim::np_scope np;
     char buf[900];
